@@ -23,7 +23,16 @@ class ExprUnaryModel(ExprModel):
         
         
         if self.op == UnaryExprType.Not:
-            ret = btor.Not(self.expr.build(btor, ctx_width))
+            # The operand is extended to the width of the enclosing
+            # expression before it is inverted (~k of an 8-bit k is 
+            # 0xFFxx in a 16-bit expression, not 0x00xx)
+            from vsc.model.expr_bin_model import ExprBinModel
+            e_n = ExprBinModel.extend(
+                self.expr.build(btor, ctx_width),
+                ctx_width,
+                self.expr.is_signed(),
+                btor)
+            ret = btor.Not(e_n)
         
         return ret
     
